@@ -125,6 +125,18 @@ def run(chk):
     chk.ob("R08.2", "from_public_point: InvalidPointError is mapped to MalformedPointError", "InvalidPointError" not in esc and "MalformedPointError" in esc and set(esc) <= {"MalformedPointError"}, loc="keys:VerifyingKey.from_public_point",
            key="C08|R08.2|mapping", detail="escape set of from_public_point is %s" % esc)
 
+    # the public constructor accepts either point class: for both the validator receives the caller's flag
+    for pk_cls in ("PointJacobi", "Point"):
+        it3 = W.interp()
+        it3.watch_results["ecdsa:Public_key.__init__"] = []
+        it3.analyse("keys:VerifyingKey.from_public_point", [VK, VSym(("param", "point"), cls=frozenset([pk_cls])), curve, VSym(("param", "hashfunc")), vp])
+        pk3 = it3.watch_results["ecdsa:Public_key.__init__"]
+        def same_point(t):
+            return t == ("param", "point") or (isinstance(t, tuple) and len(t) >= 4 and t[0] == "call" and t[2] == "from_affine" and ("param", "point") in t[3:])
+        ok3 = bool(pk3) and all(len(c[2]) >= 4 and term_of(c[2][3]) == ("param", "validate_point") and same_point(term_of(c[2][2])) for c in pk3)
+        chk.ob("R08.2", "from_public_point(<%s>): Public_key(generator, the same point, the caller's validate_point)" % pk_cls, ok3, loc="keys:VerifyingKey.from_public_point", key="C08|R08.2|public_key-args|%s" % pk_cls,
+               detail="for a %s argument the validator is called with another flag / another point than the caller's" % pk_cls)
+
     # ---------------- R08.5 compressed
     cq = "keys:VerifyingKey._from_compressed"
     from sa.config import default_policy
